@@ -1708,20 +1708,90 @@ theorem upgrade_done_unsynced (c : Ctx) (s : Sub) (h : (doCanaryUpgrade c.ro s c
       · dsimp only at h; simp at h
     · first | exact hb | rfl
 
+/-- **one round of the release manager** enters `StepTrafficRouting` or `StepMetricsAnalysis` (the sub-states after
+    the step's pods are in place) only from a sub-state in which the pods were already reported ready, or from
+    `StepUpgrade` / `BeforeStepUpgrade` of the same step in a round in which the BatchRelease reports them ready -/
+theorem runCanary_pods_gated (c0 c' : Ctx) (err : Bool) (h : runCanary c0 = .ok c' err)
+    (hst : c'.sub.state = .trafficRouting ∨ c'.sub.state = .metricsAnalysis)
+    (hne : c0.sub.state ≠ c'.sub.state ∨ c'.sub.curIdx ≠ c0.sub.curIdx) :
+    Upgraded c0.sub.state ∨
+    ((c0.sub.state = .upgrade ∨ c0.sub.state = .init) ∧ c'.sub.curIdx = c0.sub.curIdx ∧
+      ∃ c : Ctx, c.sub.curIdx = c0.sub.curIdx ∧ c.wl = c0.wl ∧ c.br = (syncStep c0).br ∧ UpgradeDone c0.ro c) := by
+  obtain ⟨y1, y2, y3, y4, y5⟩ := syncStep_sub c0
+  unfold runCanary at h
+  dsimp only at h
+  split at h
+  · cases h
+  · -- jumped: the target starts in StepInit, or in StepTrafficRouting when the pods were ready
+    rename_i s2 hj
+    simp only [RunOut.ok.injEq] at h; obtain ⟨hc, _⟩ := h; subst hc
+    obtain ⟨_, hjs⟩ := jump_spec _ _ _ _ hj
+    obtain ⟨_, _, _, _, _, j6, j7⟩ := hjs rfl
+    rw [y3] at j7
+    dsimp only at hst
+    rcases j6 with j6 | j6
+    · exact Or.inl (j7 j6)
+    · rw [j6] at hst; rcases hst with h1 | h1 <;> cases h1
+  · rename_i s2 hj
+    obtain ⟨hsame, _⟩ := jump_spec _ _ _ _ hj
+    have hs2 : s2 = (syncStep c0).sub := hsame rfl
+    subst hs2
+    split at h
+    · cases h
+    · rename_i step _
+      split at h
+      · cases h
+      · rename_i c3 done e hpre
+        have hc3 : c3.sub.curIdx = c0.sub.curIdx ∧ c3.sub.state = c0.sub.state ∧ c3.wl = c0.wl ∧ c3.br = (syncStep c0).br := by
+          unfold preStep at hpre
+          split at hpre
+          · obtain ⟨a, b, _, _, d, e', _⟩ := callTM_sub _ _ _ _ _ _ hpre
+            dsimp only at a b d e'
+            exact ⟨by rw [a, y1], by rw [b, y3], by rw [d, y5], e'⟩
+          · simp only [Option.some.injEq, Prod.mk.injEq] at hpre
+            rw [← hpre.1]; exact ⟨y1, y3, y5, rfl⟩
+        have stop : ∀ cx : Ctx, cx.sub = c3.sub → c' = cx → False := by
+          intro cx h1 h2
+          subst h2
+          rcases hne with hn | hn
+          · exact hn (by rw [h1, hc3.2.1])
+          · exact hn (by rw [h1, hc3.1])
+        split at h
+        · simp only [RunOut.ok.injEq] at h; exact (stop c3 rfl h.1.symm).elim
+        · split at h
+          · simp only [RunOut.ok.injEq] at h; exact (stop { c3 with requeue := true } rfl h.1.symm).elim
+          · have sp := stateStep_spec _ _ _ _ _ h
+            by_cases hsame' : c'.sub.state = c3.sub.state
+            · -- same sub-state: the index moved, which only happens from StepReady into StepInit
+              rcases sp.cursor with hc | ⟨_, _, r3, _, _⟩
+              · exfalso
+                rcases hne with hn | hn
+                · exact hn (by rw [hsame', hc3.2.1])
+                · exact hn (by rw [hc, hc3.1])
+              · rw [r3] at hst; rcases hst with h1 | h1 <;> cases h1
+            · rcases sp.routing hst hsame' with ⟨r1, _⟩ | ⟨r1, r2⟩
+              · left; rw [← hc3.2.1, r1]; unfold Upgraded; simp
+              · right
+                have hcur : c'.sub.curIdx = c0.sub.curIdx := by
+                  rcases sp.cursor with hc | ⟨r', _, _, _, _⟩
+                  · rw [hc, hc3.1]
+                  · rcases r1 with r1 | r1 <;> rw [r1] at r' <;> cases r'
+                exact ⟨by rw [← hc3.2.1]; exact r1, hcur, c3, hc3.1, hc3.2.2.1, hc3.2.2.2, r2⟩
+
 theorem podsReady_iff (st : StepState) : podsReady st = true ↔ Upgraded st := by
   unfold podsReady Upgraded; cases st <;> simp
 
 theorem inRolling_routing (w : World) (old ns : Rollout) (s os : Sub) (wl : WL) (r : StepResult) (s' : Sub)
     (hold : old.sub = some os) (hns : ns.sub = some s)
     (h : inRolling w old ns s wl = .val r) (hs' : r.w.ro.sub = some s')
-    (hst : s'.state = .trafficRouting) (hch : s.state ≠ .trafficRouting ∨ s'.curIdx ≠ s.curIdx) :
+    (hst : s'.state = .trafficRouting ∨ s'.state = .metricsAnalysis) (hch : s.state ≠ s'.state ∨ s'.curIdx ≠ s.curIdx) :
     Upgraded s.state ∨
     ((s.state = .upgrade ∨ s.state = .init) ∧ s'.curIdx = s.curIdx ∧
       (doCanaryUpgrade ns { s with nextIdx := s'.nextIdx } wl w.br).1 = true) := by
   have same : ∀ (P : Prop), s'.curIdx = s.curIdx → s'.state = s.state → P := by
     intro P h1 h2
     rcases hch with hc | hc
-    · exact absurd (h2 ▸ hst) hc
+    · exact absurd h2.symm hc
     · exact absurd h1 hc
   unfold inRolling at h
   dsimp only at h
@@ -1732,7 +1802,7 @@ theorem inRolling_routing (w : World) (old ns : Rollout) (s os : Sub) (wl : WL) 
   · split at h
     · cases h; dsimp only at hs'; rw [hns] at hs'; cases hs'; exact same _ rfl rfl
     · split at h
-      · cases h; dsimp only at hs'; cases hs'; cases hst
+      · cases h; dsimp only at hs'; cases hs'; rcases hst with h1 | h1 <;> cases h1
       · split at h
         · split at h
           · cases h; dsimp only at hs'; rw [hns] at hs'; cases hs'; exact same _ rfl rfl
@@ -1751,15 +1821,19 @@ theorem inRolling_routing (w : World) (old ns : Rollout) (s os : Sub) (wl : WL) 
           · split at h
             · cases h
             · split at h
-              · cases h; dsimp only at hs'; cases hs'; cases hst
+              · cases h; dsimp only at hs'; cases hs'; rcases hst with h1 | h1 <;> cases h1
               · split at h
                 · cases h
                 · rename_i s2 j hj
                   cases h; dsimp only at hs'; cases hs'
                   obtain ⟨j1, j2⟩ := jump_spec _ _ _ _ hj
                   cases j with
-                  | false => have := j1 rfl; subst this; dsimp only at hst; exact same _ rfl rfl
-                  | true => exact Or.inl ((j2 rfl).2.2.2.2.2.2 hst)
+                  | false => have := j1 rfl; subst this; exact same _ rfl rfl
+                  | true =>
+                    obtain ⟨_, _, _, _, _, jst, jup⟩ := j2 rfl
+                    rcases jst with jst | jst
+                    · exact Or.inl (jup jst)
+                    · rw [jst] at hst; rcases hst with h1 | h1 <;> cases h1
           · split at h
             · cases h; dsimp only at hs'; rw [hns] at hs'; cases hs'; exact same _ rfl rfl
             · split at h
@@ -1767,15 +1841,15 @@ theorem inRolling_routing (w : World) (old ns : Rollout) (s os : Sub) (wl : WL) 
               · rename_i c e hrun
                 cases h
                 unfold ofCtx at hs'; dsimp only at hs'; cases hs'
-                obtain ⟨_, g2, _⟩ := runCanary_gated _ _ _ hrun
                 -- the status the release manager started from
                 generalize hs0 : (if s.nextIdx ≤ 0 ∨ s.nextIdx > (ns.steps.length : Int) then
-                    { s with nextIdx := nextBatchIndex ns.steps.length s.curIdx } else s) = s0 at g2 hrun
+                    { s with nextIdx := nextBatchIndex ns.steps.length s.curIdx } else s) = s0 at hrun
                 have hcur : s0.curIdx = s.curIdx := by rw [← hs0]; split <;> rfl
                 have hsta : s0.state = s.state := by rw [← hs0]; split <;> rfl
+                have g2 := runCanary_pods_gated _ _ _ hrun hst (by unfold toCtx; dsimp only; rw [hsta, hcur]; exact hch)
                 unfold toCtx at g2
                 dsimp only at g2
-                rcases g2 hst (by rw [hsta, hcur]; exact hch) with hu | ⟨hui, hcs, _, cx, cx1, cx2, cx3, cx4⟩
+                rcases g2 with hu | ⟨hui, hcs, cx, cx1, cx2, cx3, cx4⟩
                 · exact Or.inl (hsta ▸ hu)
                 · right
                   refine ⟨hsta ▸ hui, hcs.trans hcur, ?_⟩
@@ -1840,7 +1914,7 @@ theorem enter_routing_gated (w : World) (r : StepResult) (h : reconcile w = .val
       intro he
       rw [hs', hos] at he; cases he
       rcases hch with hc | hc
-      · exact hc hst
+      · exact hc rfl
       · exact hc rfl
     cases hw : w.wl with
     | none =>
